@@ -8,8 +8,9 @@ import fatimg
 LIMITS = [(1, 4, 4), (1, 1, 1), (2, 2, 2), (2, 4, 4), (3, 8, 8), (8, 1, 3), (4, 3, 1), (2, 5, 2), (1, 2, 8), (1, 8, 2),
           (4, 4, 4), (1, 3, 5), (5, 6, 7), (1, 7, 6)]
 MODES = ["RO", "RWA", "RWT", "RWC", "RWCT", "RWCA"]
-GOOD_NAMES = ["A.TXT", "B.BIN", "DATA.DAT", "README.MD", "X", "LONGNAME.EXT", "F1", "F2.TMP", "LOG.0", "Z9.Z", "NOTES", "q.c"]
-DIR_NAMES = ["SUB", "D1", "DIR2.X", "DEEP", "E"]
+GOOD_NAMES = ["A.TXT", "B.BIN", "DATA.DAT", "README.MD", "X", "LONGNAME.EXT", "F1", "F2.TMP", "LOG.0", "Z9.Z", "NOTES", "q.c",
+              "TE@T", "#$%&'()-.@{}", "~^_`!.-"]      # every legal 8.3 punctuation mark occurs in some name
+DIR_NAMES = ["SUB", "D1", "DIR2.X", "DEEP", "E", "D@R.{~}"]
 BAD_NAMES = ["", "TOOLONGNAME.TXT", "A.TOOL", "A..B", ".X", "A B", "A*B", "A/B", "Ā.TXT", "åB.TXT", "a+b", "A.B.C", "ABCDEFGHI"]
 
 def hx(s):
